@@ -83,11 +83,12 @@ class Ref:
 class LazyUnion:
     """a field of a symbolic entry object whose type is a union / optional: resolved (by forking) on first read.
     alts: list of (type text, value | ABSENT)"""
-    __slots__ = ('alts', 'name')
+    __slots__ = ('alts', 'name', 'sel')
 
-    def __init__(self, alts, name):
+    def __init__(self, alts, name, sel):
         self.alts = alts
         self.name = name
+        self.sel = sel        # z3 Int: which alternative holds (sel == i); keeps unresolved reads guarded
 
     def __repr__(self):
         return 'LazyUnion(%s)' % ','.join(str(a[0]) for a in self.alts)
@@ -188,6 +189,9 @@ class HObj:
         h = HObj(self.kind, self.cls, dict(self.fields),
                  (list(self.items) if isinstance(self.items, list) else
                   dict(self.items) if isinstance(self.items, dict) else self.items))
+        gid = getattr(self, 'ghost_id', None)
+        if gid is not None:
+            h.ghost_id = gid
         return h
 
 
